@@ -373,6 +373,8 @@ class Histogram1D(ObjectWithBinning, HistogramBase):
         Note: If a gap in unconsecutive bins is matched, underflow & overflow are not valid anymore.
         Note: Name was selected because of the eponymous method in ROOT
         """
+        if isinstance(weight, np.integer):
+            weight = int(weight)  # weight**2 must not wrap around in a narrow type
         self._coerce_dtype(type(weight))
         if self._binning.is_adaptive():
             bin_map = self._binning.force_bin_existence(value)
@@ -424,7 +426,10 @@ class Histogram1D(ObjectWithBinning, HistogramBase):
             self._reshape_data(self._binning.bin_count, map)
         weights_array = extract_weights(weights, array_mask=array_mask)
         if weights_array is not None:
-            self._coerce_dtype(weights_array.dtype)
+            if weights_array.dtype.kind in "iu":
+                self._coerce_dtype(int)  # (sums of narrow integer weights need the room)
+            else:
+                self._coerce_dtype(weights_array.dtype)
         else:
             self._coerce_dtype(int)  # Counting, as in fill()
         (frequencies, errors2, underflow, overflow, stats) = calculate_1d_frequencies(
